@@ -23,6 +23,11 @@
 //	hist <w_ns> <via> <k>:<call>:<ret>:<a|d|E>*    OBS lin.  Stamped history of concurrent arrivals on a short-window repository
 //	    (clean-up ticker running); stamps are monotonic ns taken before the call and after the return.
 //	expire <via> <w_ms>                            OBS reaccepted | stuck | first-not-accepted  (poll until the key is accepted again)
+//	ctx <mw|dec> <hasher> <k><mode>*               one letter per delivery: p reached the handler / wrapped publisher, d dropped as a success, e error
+//	    deliveries of key index k whose message context is l live, c cancelled before the call, x past its deadline,
+//	    h cancelled at the hook dedup.isduplicate.enter (between Deduplicator.IsDuplicate and the repository lock),
+//	    t outlived there (the hook sleeps longer than the 5 ms Timeout).  Decorator: one message per Publish.
+//	ctxc <mw|dec> <hasher> <yield> <g1>;<g2>;…       g = k<mode>.k<mode>… presented by one goroutine; OBS k<i>=<reached>:<dropped>:<errors>,…
 //	router <n> <nkeys>                             OBS handled=<h> acked=<a>  (a real Router + GoChannel; every message is acked, one handled per key)
 package main
 
@@ -72,6 +77,7 @@ func installHook() {
 			return
 		}
 		atomic.AddInt64(&hookHits, 1)
+		runHookAction() // ctx / ctxc cases: cancel or outlive the caller's context between Deduplicator.IsDuplicate and the repository lock
 		m := atomic.LoadInt32(&yieldMode)
 		if m == 0 {
 			return
@@ -1206,6 +1212,29 @@ func runReq(req string) (string, string, error) {
 		return fmt.Sprintf("timeout %s %d %d %d %d", f[1], cfg, lo, hi, cv), "ok", nil
 	case "hist":
 		return req, "lin", nil // carries its own observation
+	case "ctx":
+		via, k, steps, err := parseCtxReq(f)
+		if err != nil {
+			return req, "", err
+		}
+		return req, runCtxSeq(via, k, steps), nil
+	case "ctxc":
+		if len(f) != 5 {
+			return req, "", errors.New("fields")
+		}
+		k, err := parseHasher(f[2])
+		if err != nil {
+			return req, "", err
+		}
+		y, err := strconv.Atoi(f[3])
+		if err != nil {
+			return req, "", err
+		}
+		gs, nk, err := parseCtxAssign(f[4])
+		if err != nil || (f[1] != "mw" && f[1] != "dec") {
+			return req, "", errors.New("ctxc args")
+		}
+		return req, runCtxConc(f[1], k, y, gs, nk), nil
 	case "router":
 		if len(f) != 3 {
 			return req, "", errors.New("fields")
